@@ -104,6 +104,12 @@ class FitProblem:
         d = cfg["d"]
         X, y = dataset(cfg)
         kernel = Matern52(d, ARD=bool(cfg["ard"]), encoding_type=cfg["enc"])
+        if cfg.get("warp"):
+            from syne_tune.optimizer.schedulers.searchers.bayesopt.gpautograd.warping import Warping, WarpedKernel
+            ranges = [(0, d)] if cfg["warp"] == 1 else [(0, 1), (1, d)]
+            kernel = WarpedKernel(kernel=kernel, warpings=[Warping(dimension=d, coordinate_range=r, encoding_type=cfg["enc"])
+                                                           for r in ranges])
+        self.with_bounds = bool(cfg.get("bounds"))
         mean = ScalarMeanFunction() if cfg["mean"] == "scalar" else ZeroMeanFunction()
         tt = BoxCoxTargetTransform() if cfg["tt"].startswith("bc") else None
         lik = GaussianProcessMarginalLikelihood(kernel=kernel, mean=mean, target_transform=tt,
@@ -117,10 +123,23 @@ class FitProblem:
         self.conv = ParamVecDictConverter(pdict)
         self.center = np.array(self.conv.to_vec(), dtype=float)
         self.coords = []     # (index, label, levels_internal)
+        self.box = {}        # index -> (lower, upper) in internal coordinates (None = unbounded / enforced by the encoding)
         for param, enc in lik.param_encoding_pairs():
             idxs = self.conv.name_to_index[param.name]
             kind = kind_of(param.name)
             levels = self._levels(enc)
+            for ix in idxs:
+                self.box[int(ix)] = tuple(None if b is None else float(np.asarray(enc.decode(b, "level")).reshape(-1)[0])
+                                          for b in enc.box_constraints())
+            if self.with_bounds:
+                # the exact box bounds as well: that is where a projected optimiser puts its iterates, and the sign of the
+                # gradient there decides whether the variable is released
+                lo, hi = enc.box_constraints()
+                for b in (lo, hi):
+                    if b is not None:
+                        lv = float(np.asarray(enc.decode(b, "level")).reshape(-1)[0])
+                        if lv not in levels:
+                            levels = levels + [lv]
             for j, ix in enumerate(idxs):
                 label = kind if len(idxs) == 1 else f"{kind}[{j}]"
                 self.coords.append((int(ix), label, kind, levels))
